@@ -141,11 +141,10 @@ theorem load_full {c : Chain} (hc : c.WF) (t : Task) (s : St) (st lim : Nat)
   obtain ⟨he, hse⟩ := hfl
   subst he; subst hse
   rcases load_chain hc t s s2 _ st lim lr hsc hb hcc hcb hl hlb hs hst h
-    with h' | h' | ⟨k, hk1, hk2, hk3, ⟨_, hne⟩ | ⟨h', _⟩⟩
+    with h' | ⟨_, h'⟩ | ⟨k, hk1, hk2, hk3, ⟨_, hne⟩ | ⟨h', _⟩⟩
   · subst h'
-    rcases hcase with ⟨hx, _⟩ | ⟨_, hx, _⟩ | ⟨_, _, ⟨_, hx⟩ | ⟨_, _, _, ⟨_, hx⟩ | ⟨_, hx⟩⟩⟩ <;> cases hx
-  · subst h'
-    rcases hcase with ⟨hx, _⟩ | ⟨_, hx, _⟩ | ⟨_, _, ⟨_, hx⟩ | ⟨_, _, _, ⟨_, hx⟩ | ⟨_, hx⟩⟩⟩ <;> cases hx
+    rcases hcase with ⟨hx, _⟩ | ⟨_, hx, _⟩ | ⟨_, _, ⟨_, hx⟩ | ⟨_, _, _, ⟨_, hx⟩ | ⟨_, _, hx⟩ | ⟨_, _, hx⟩⟩⟩ <;> cases hx
+  · rw [hgo] at h'; cases h'
   · exact absurd rfl hne
   · subst h'
     exact ⟨k, s2, hk1, hk2, hk3, rfl, hsame.view⟩
